@@ -40,9 +40,10 @@ META = {
                     'are reported as the probe untracked_drift and only V1 can catch their effects',
                     'jobs that raise are outside the premise ("processed to completion"): the history is cut there',
                     'canonicalisation renames generated identifiers a<digits> by first appearance'],
-    'probe_names': ['eof_cut_inside_math', 'eof_cut_inside_list', 'aborted_histories', 'untracked_drift', 'exec_reference',
+    'probe_names': ['corpus_pair', 'eof_cut_inside_math', 'eof_cut_inside_list', 'aborted_histories', 'untracked_drift', 'exec_reference',
                     'clock_jump_years', 'same_input_twice', 'job_after_truncated_job', 'v1_compared', 'full_base'],
     'shrink_budget': 40,
+    'enum_batch': {'quick': 4, 'thorough': 4},
 }
 RUN_TIMEOUT = 3600
 JOB = 'sim.props.c17:history_job'
@@ -237,7 +238,25 @@ OPENERS = sorted(b for b in BLOCKS if b.endswith('_open'))
 CONFLICTS = [('newif', 'newif_probe'), ('coltype_def', 'coltype_use')]
 
 
+CORPUS = ['unittests/amsthm/source.tex', 'unittests/sources/floats.tex', 'unittests/sources/Alignment.tex',
+          'unittests/sources/cancel.tex', 'unittests/sources/align.tex', 'unittests/sources/footnotes.tex',
+          'unittests/empty_article.tex', 'unittests/Packages/sources/natbib.tex', 'unittests/Packages/sources/pifont.tex',
+          'unittests/Packages/sources/bib.tex', 'unittests/Packages/sources/textcomp.tex',
+          'unittests/Packages/sources/babel.tex', 'unittests/Packages/sources/multibib.tex']
+
+
+def corpus_source(rel):
+    """A document of the repository's own test corpus (sources are data, not code under test)."""
+    try:
+        with open(os.path.join(core.REPO, rel), encoding='utf-8') as f:
+            return f.read()
+    except OSError:
+        return None
+
+
 def job_source(job):
+    if job.get('corpus'):
+        return corpus_source(job['corpus']) or '\\documentclass{article}\\begin{document}missing corpus file\\end{document}\n'
     lines = ['\\documentclass{%s}' % job['cls']]
     pk = list(job['packages'])
     for b in job['blocks']:
@@ -577,6 +596,20 @@ def prepare():
     lifetimes.pristine_parent()
 
 
+def enumerate_cases(base_seed, tier):
+    """Every ordered pair (A;B) of the repository's own test documents, B judged against B alone."""
+    out = []
+    for ia, a in enumerate(CORPUS):
+        for ib, b in enumerate(CORPUS):
+            def job(rel):
+                return {'op': 'JOB', 'corpus': rel, 'cls': 'article', 'packages': [], 'blocks': [], 'cut': None,
+                        'renderer': 'HTML5', 'split': 2, 'theme': 'default', 'dt': 60, 'extra': []}
+            out.append({'property': PID, 'seed': core.h64('C17-corpus', ia, ib),
+                        'swarm': {'scrub': False, 'base': 'minimal', 'exec_ref': False, 'hashseed': 1},
+                        'ops': [job(a), job(b)]})
+    return out
+
+
 _GROUPS = None
 
 
@@ -675,6 +708,8 @@ def execute(record):
                              'detail': {'after_job': j, 'pristine': h['drift'][path][0], 'now': h['drift'][path][1],
                                         'blocks': jobs[j]['blocks'], 'cut': jobs[j]['cut']}})
         # probes
+        if any(o.get('corpus') for o in record['ops']):
+            info['corpus_pair'] = 1
         for j, job in enumerate(jobs):
             if job['cut'] is not None and j < len(completed):
                 if 'math_open' in job['blocks']:
